@@ -10,6 +10,7 @@
 #include "bee2/math/ecp.h"
 #include "bee2/math/ww.h"
 #include "bee2/math/zz.h"
+#include "bee2/math/qr.h"
 #include "crypto/bign/bign_lcl.h"
 
 env_t E;
@@ -26,7 +27,7 @@ static int zero_(const word* a, size_t n) { while (n--) if (a[n]) return 0; retu
    (FITS).  A heap object of exactly that size was tried first: untyped dynamic memory holding the object
    pointers makes the queries run out of memory. */
 #define ENV_LOCALS (24 * NW)   /* capacity for the local variables; the stacks of the callees are never touched by the stubs */
-static struct env_state { ec_o ec; qr_o f; word mod[NW]; word order[NW + 1]; word base[2 * NW]; word locals[ENV_LOCALS]; } S;
+static struct env_state { ec_o ec; qr_o f; word mod[NW]; word order[NW + 1]; word base[2 * NW]; word A[NW]; word B[NW]; word locals[ENV_LOCALS]; } S;
 #define ENV_KEEP (__builtin_offsetof(struct env_state, locals))
 #define FITS(p, need) (__CPROVER_same_object(p, &S) && __CPROVER_POINTER_OFFSET(p) >= ENV_KEEP && \
 	(size_t)__CPROVER_POINTER_OFFSET(p) + (size_t)(need) <= E.blob_size)
@@ -63,6 +64,8 @@ size_t bignStart_keep(size_t l, bign_deep_i deep)
 }
 static bool_t env_from(word b[], const octet a[], const struct qr_o* r, void* stack);
 static void env_to(octet b[], const word a[], const struct qr_o* r, void* stack);
+static void env_sqr(word b[], const word a[], const struct qr_o* r, void* stack);
+static void env_mul(word c[], const word a[], const word b[], const struct qr_o* r, void* stack);
 err_t bignStart(void* state, const bign_params* params)
 {
 	ec_o* ec = &S.ec; qr_o* f = &S.f;
@@ -74,13 +77,15 @@ err_t bignStart(void* state, const bign_params* params)
 	f->hdr.keep = sizeof(qr_o); f->hdr.p_count = 3; f->hdr.o_count = 0;
 	f->n = NW; f->no = NO; f->mod = S.mod; f->unity = 0; f->params = 0; f->deep = ENV_F_DEEP;
 	f->from = env_from; f->to = env_to;
-	f->add = 0; f->sub = 0; f->neg = 0; f->mul = 0; f->sqr = 0; f->inv = 0; f->div = 0;
+	f->add = 0; f->sub = 0; f->neg = 0; f->mul = env_mul; f->sqr = env_sqr; f->inv = 0; f->div = 0;
 	wwFrom(f->mod, params->p, NO);
-	ec->f = f; ec->A = 0; ec->B = 0; ec->params = 0; ec->d = ENV_EC_D; ec->cofactor = 1; ec->deep = ENV_EC_DEEP;
+	ec->f = f; ec->A = S.A; ec->B = S.B; ec->params = 0; ec->d = ENV_EC_D; ec->cofactor = 1; ec->deep = ENV_EC_DEEP;
 	ec->order = S.order; ec->base = S.base;
 	ec->froma = 0; ec->toa = 0; ec->neg = 0; ec->add = 0; ec->adda = 0; ec->sub = 0; ec->suba = 0; ec->dbl = 0; ec->dbla = 0; ec->tpl = 0;
 	wwFrom(ec->order, params->q, NO); ec->order[NW] = 0;
 	hv_words(ec->base, 2 * NW);
+	hv_words(S.A, NW); hv_words(S.B, NW); __CPROVER_assume(lt_(S.A, S.mod, NW) && lt_(S.B, S.mod, NW));
+	{ size_t j; E.A = S.A; E.B = S.B; for (j = 0; j < NW; ++j) E.A_val[j] = S.A[j], E.B_val[j] = S.B[j], E.p[j] = S.mod[j]; }
 	E.ec = ec; E.f = f; E.base = ec->base; E.order = ec->order;
 	{ size_t j; for (j = 0; j < NW; ++j) E.q[j] = ec->order[j]; for (j = 0; j < 2 * NW; ++j) E.base_val[j] = ec->base[j]; }
 	E.start_ret = nondet_int() ? 1 : -1;
@@ -121,6 +126,37 @@ static void env_to(octet b[], const word a[], const struct qr_o* r, void* stack)
 	hv_octets(b, NO);
 	for (j = 0; j < NO; ++j) E.to_val[i][j] = b[j];
 	E.nto = i + 1;
+}
+
+/* ---- field squaring / product / power: results are field elements (< mod) */
+static void env_sqr(word b[], const word a[], const struct qr_o* r, void* stack)
+{
+	int i = E.nsqr; size_t j;
+	REQ(i < 2, "qrSqr: call count"); REQ(r == E.f, "qrSqr: the field of the curve"); REQ(FITS(stack, ENV_F_DEEP), "qrSqr: stack of f->deep octets inside the state");
+	for (j = 0; j < NW; ++j) E.sqr_in[i][j] = a[j];
+	hv_words(b, NW); __CPROVER_assume(lt_(b, S.mod, NW));
+	for (j = 0; j < NW; ++j) E.sqr_out[i][j] = b[j];
+	E.nsqr = i + 1;
+}
+static void env_mul(word c[], const word a[], const word b[], const struct qr_o* r, void* stack)
+{
+	size_t j;
+	REQ(E.nfmul == 0, "qrMul: one call"); REQ(r == E.f, "qrMul: the field of the curve"); REQ(FITS(stack, ENV_F_DEEP), "qrMul: stack of f->deep octets inside the state");
+	for (j = 0; j < NW; ++j) E.fmul_a[j] = a[j], E.fmul_b[j] = b[j];
+	hv_words(c, NW); __CPROVER_assume(lt_(c, S.mod, NW));
+	for (j = 0; j < NW; ++j) E.fmul_out[j] = c[j];
+	E.nfmul = 1;
+}
+void qrPower(word c[], const word a[], const word b[], size_t m, const qr_o* r, void* stack)
+{
+	size_t j;
+	REQ(E.npow == 0, "qrPower: one call"); REQ(r == E.f && m == NW, "qrPower: the field of the curve, exponent of n words");
+	REQ(FITS(stack, qrPower_deep(NW, m, ENV_F_DEEP)), "qrPower: stack of qrPower_deep octets inside the state");
+	for (j = 0; j < NW; ++j) E.pow_a[j] = a[j], E.pow_e[j] = b[j];
+	E.pow_m = m;
+	hv_words(c, NW); __CPROVER_assume(lt_(c, S.mod, NW));
+	for (j = 0; j < NW; ++j) E.pow_out[j] = c[j];
+	E.npow = 1;
 }
 
 /* ---- zzRandNZMod: ensures 0 < a < mod on success */
@@ -242,6 +278,19 @@ void beltWBLStepE(void* buf, size_t count, void* state)
 	}
 	for (j = 0; j < 64; ++j) E.wbl_out[i][j] = j < count ? b[j] : 0;
 	E.nwbl = i + 1;
+}
+
+void beltWBLStepD2(void* buf1, void* buf2, size_t count, void* state)
+{
+	size_t j; octet* b1 = (octet*)buf1; octet* b2 = (octet*)buf2;
+	REQ(E.nd2 == 0, "beltWBLStepD2: one call"); REQ(count >= 32 && count <= 64 + 16, "beltWBLStepD2: 32..80 octets in this model");
+	REQ(__CPROVER_w_ok(buf1, count - 16) && __CPROVER_w_ok(buf2, 16), "beltWBLStepD2: buffers of count - 16 and 16 octets");
+	E.nd2 = 1; E.d2_buf1 = buf1; E.d2_buf2 = buf2; E.d2_count = count;
+	for (j = 0; j < 64; ++j) E.d2_in1[j] = j < count - 16 ? b1[j] : 0;
+	for (j = 0; j < 16; ++j) E.d2_in2[j] = b2[j];
+	hv_octets(b1, count - 16); hv_octets(b2, 16);
+	for (j = 0; j < 64; ++j) E.d2_out1[j] = j < count - 16 ? b1[j] : 0;
+	for (j = 0; j < 16; ++j) E.d2_out2[j] = b2[j];
 }
 
 /* ---- zzMul / zzMod: memory side + range of the remainder */
